@@ -39,7 +39,8 @@ func (e *Exec) execBuiltin(fr *Frame, st *State, in ssa.CallInstruction, c *ssa.
 				if v.Elems != nil {
 					return vInt(sInt(int64(len(v.Elems))))
 				}
-				return vInt(sx("seq.len", e.seqOf(st, v.t(), t.Elem()))).withT(types.Typ[types.Int])
+				_ = t
+				return vInt(e.seqLen(st, v.t())).withT(types.Typ[types.Int])
 			case *types.Map:
 				return vInt(e.mapLen(st, v.t(), t))
 			case *types.Chan:
@@ -66,9 +67,23 @@ func (e *Exec) execBuiltin(fr *Frame, st *State, in ssa.CallInstruction, c *ssa.
 		y := e.val(fr, args[1], st)
 		n, srt := e.seqArr(sl.Elem())
 		xs := e.sel(st, n, srt, x.t())
-		ys := e.sel(st, n, srt, y.t())
+		xl := e.seqLen(st, x.t())
 		r := e.alloc(st, "app", nil)
-		e.upd(st, n, srt, r, sx("seq.++", xs, ys))
+		if y.Elems != nil {
+			c := xs
+			for i, el := range y.Elems {
+				c = sx("store", c, sx("+", xl, sInt(int64(i))), elemTerm(el))
+			}
+			e.setSeq(st, r, sl.Elem(), c, sx("+", xl, sInt(int64(len(y.Elems)))))
+		} else {
+			// concatenation with a slice of unknown length: element-wise axiom
+			ys := e.sel(st, n, srt, y.t())
+			yl := e.seqLen(st, y.t())
+			c := e.S.Fresh("concat", srt)
+			e.S.Assert("(forall ((i Int)) (! (= (select " + c + " i) (ite (< i " + xl + ") (select " + xs + " i) (select " + ys + " (- i " + xl + ")))) :pattern ((select " + c + " i))))")
+			e.setSeq(st, r, sl.Elem(), c, sx("+", xl, yl))
+			e.note("%s: append of a slice of unknown length uses a quantified element-wise axiom", e.name)
+		}
 		// nil-ness: appending nothing to nil stays nil
 		res := vRef(r).withT(args[0].Type())
 		if x.Elems != nil && y.Elems != nil {
@@ -151,8 +166,8 @@ func (e *Exec) execStdlib(fr *Frame, st *State, in ssa.CallInstruction, c *ssa.C
 			return vBytes(e.S.Define("join", "String", sConcat(parts...)), "false").withT(rt)
 		}
 		seq := e.seqOf(st, list.t(), types.NewSlice(types.Typ[types.Uint8]))
-		e.S.DeclareFun("join", []string{"(Seq String)", "String"}, "String")
-		return vBytes(e.S.Define("join", "String", sx("join", seq, sep.A[0])), "false").withT(rt)
+		e.S.DeclareFun("join", []string{"(Array Int String)", "Int", "String"}, "String")
+		return vBytes(e.S.Define("join", "String", sx("join", seq, e.seqLen(st, list.t()), sep.A[0])), "false").withT(rt)
 	case "strconv.Itoa":
 		n := arg(0).t()
 		return vStr(e.S.Define("itoa", "String", decTerm(n))).withT(rt)
